@@ -40,7 +40,7 @@ def main():
         "setup_cmd": "./setup.sh",
         "hooks": {
             "guard": "none: build-time overlay (go build -overlay + -modfile); /repo is never edited by the machinery",
-            "enable": "verifsim instruments a virtual copy of /repo's working tree (import redirection of os, path/filepath, io/ioutil, os/signal, time, math/rand to the simulator; yield points; the same for one file of the golang.org/x/tools module, internal/imports/sortimports.go, which needs GODEBUG=goindex=0 for the build) and builds it with `go test -c -overlay build/<id>/overlay.json -modfile build/<id>/go.mod`",
+            "enable": "verifsim instruments a virtual copy of /repo's working tree (import redirection of os, path/filepath, io/ioutil, os/signal, time, math/rand, go/parser to the simulator; yield points; the same for one file of the golang.org/x/tools module, internal/imports/sortimports.go, which needs GODEBUG=goindex=0 for the build) and builds it with `go test -c -overlay build/<id>/overlay.json -modfile build/<id>/go.mod`",
             "baseline_off_cmd": "cd /repo && go test -mod=mod -vet=off -count=1 ./...",
             "source_commits": [],
             "add_only": True,
